@@ -1,5 +1,6 @@
 """Per-property configuration for ./check: which drivers run, how many cases per tier,
-and what goes into the evidence's trusted base."""
+and what goes into the evidence's trusted base.  One JSON fragment per property in lib/props.d/."""
+import json, os, glob
 
 COMMON_TRUSTED_BASE = [
     "Coq 8.16.1 kernel (coqc; coqchk in the thorough tier of the whole tree); vm_compute used for witnesses and for evaluating the model on harness cases; native_compute not used",
@@ -7,17 +8,6 @@ COMMON_TRUSTED_BASE = [
     "hand-written Gallina model in /verif/coq/Model tied to /repo by differential execution: Go harness (/verif/harness, compiled against /repo's working tree on every run) + coqc evaluation of cases_*.v; generators, projections and this python driver are trusted for the correspondence only",
 ]
 
-def drv(name, test, quick, thorough, **kw):
-    d = {"name": name, "test": test, "quick": quick, "thorough": thorough}
-    d.update(kw)
-    return d
-
-PROPS = {
-    "C09": {
-        "drivers": [drv("basefee", "TestDriverBasefee", 1500, 40000)],
-        "trusted_base": [
-            "modelled: x/feemarket/keeper/eip1559.go CalculateBaseFee + go-ethereum consensus/misc.CalcBaseFee (London active), the price floor of app/antedl/duallane/07_deduct_fee.go; not modelled: param storage, telemetry",
-        ],
-        "assumptions": ["block gas meter reports used <= limit for a finite meter (SDK GasConsumedToLimit)"],
-    },
-}
+PROPS = {}
+for f in sorted(glob.glob(os.path.join(os.path.dirname(os.path.abspath(__file__)), "props.d", "*.json"))):
+    PROPS[os.path.basename(f)[:-5]] = json.load(open(f))
